@@ -58,11 +58,17 @@ DecodeInstr(b, p) ==
     [] sh = 2 -> [ok |-> TRUE, v |-> [op |-> op, a |-> U16(b, p+1), n |-> 0], p |-> p + 3]
     [] sh = 3 -> [ok |-> TRUE, v |-> [op |-> op, a |-> U16(b, p+1), n |-> b[p+3]], p |-> p + 4]
 
-RECURSIVE DecodeInstrs(_,_,_,_)
-DecodeInstrs(b, p, n, acc) ==
+\* n instructions from p, read in runs of 128 (one recursion as deep as a method is long costs TLC quadratic time)
+RECURSIVE DecodeInstrRun(_,_,_,_)
+DecodeInstrRun(b, p, n, acc) ==
   IF n = 0 THEN [ok |-> TRUE, v |-> acc, p |-> p]
   ELSE LET r == DecodeInstr(b, p) IN
-       IF ~r.ok THEN NoGo(p) ELSE DecodeInstrs(b, r.p, n - 1, Append(acc, r.v))
+       IF ~r.ok THEN NoGo(p) ELSE DecodeInstrRun(b, r.p, n - 1, Append(acc, r.v))
+RECURSIVE DecodeInstrs(_,_,_,_)
+DecodeInstrs(b, p, n, acc) ==
+  LET take == IF n > 128 THEN 128 ELSE n
+      r == DecodeInstrRun(b, p, take, <<>>) IN
+  IF ~r.ok THEN r ELSE IF take = n THEN [ok |-> TRUE, v |-> acc \o r.v, p |-> r.p] ELSE DecodeInstrs(b, r.p, n - take, acc \o r.v)
 
 DecodeU16s(b, p, n) ==
   IF ~Has(b, p, 2 * n) THEN NoGo(p)
@@ -90,11 +96,16 @@ DecodeConst(b, p) ==
     [] tag = 6 -> IF ~Has(b, p, 2) THEN NoGo(p) ELSE [ok |-> b[p+1] \in {0,1}, v |-> [k |-> "bool", b |-> b[p+1] = 1], p |-> p + 2]
     [] OTHER -> NoGo(p)
 
-RECURSIVE DecodeConsts(_,_,_,_)
-DecodeConsts(b, p, n, acc) ==
+RECURSIVE DecodeConstRun(_,_,_,_)
+DecodeConstRun(b, p, n, acc) ==
   IF n = 0 THEN [ok |-> TRUE, v |-> acc, p |-> p]
   ELSE LET r == DecodeConst(b, p) IN
-       IF ~r.ok THEN NoGo(p) ELSE DecodeConsts(b, r.p, n - 1, Append(acc, r.v))
+       IF ~r.ok THEN NoGo(p) ELSE DecodeConstRun(b, r.p, n - 1, Append(acc, r.v))
+RECURSIVE DecodeConsts(_,_,_,_)
+DecodeConsts(b, p, n, acc) ==
+  LET take == IF n > 128 THEN 128 ELSE n
+      r == DecodeConstRun(b, p, take, <<>>) IN
+  IF ~r.ok THEN r ELSE IF take = n THEN [ok |-> TRUE, v |-> acc \o r.v, p |-> r.p] ELSE DecodeConsts(b, r.p, n - take, acc \o r.v)
 
 BadProgram == [ok |-> FALSE, consts |-> <<>>, globals |-> <<>>, entry |-> 0, rest |-> 0]
 \* ok: the bytes are a complete file in the layout; rest = number of trailing bytes (must be 0 for files the toolchain emits)
